@@ -15,6 +15,8 @@ import (
 // C13 — scalar comparisons and conditional selection follow integer semantics.
 
 type c13Case struct {
+	// Conc != 0: a concurrent batch (8 goroutines on objects they own) derived from this seed; other fields unused.
+	Conc uint64 `json:"concurrent_seed,omitempty"`
 	Op    string `json:"op"` // cmp | cselect
 	S     string `json:"s"`
 	T     string `json:"t"`            // "nil" allowed for cselect / equal
@@ -32,7 +34,7 @@ func init() {
 			"pairs differing in exactly one canonical limb and pairs differing in exactly one stored limb (each limb, both directions), s=t (same and distinct objects), s=t±1, (0,n-1), values whose stored form is adjacent to One() or to zero, PRNG pairs; " +
 			"CSelect with condition words 0,1,2,every 2^k,2^64-1,alternating patterns, random, receiver fresh or aliased with either operand, nil operands. " +
 			"Oracle: integer comparison of the canonical values in math/big; CSelect must yield the first operand for 0 and the second for every non-zero word, and on a nil operand return an error with the receiver bit-identical. " +
-			"non-trivial = s != t or a cselect case; distinct by the whole case.",
+			"non-trivial = s != t or a cselect case; distinct by the whole case. Plus concurrent batches: 8 goroutines run the operations simultaneously on objects they own, each result judged against the oracle.",
 		NewCase:  func() any { return &c13Case{} },
 		Generate: c13Generate,
 		Run:      c13Run,
@@ -46,6 +48,8 @@ func init() {
 }
 
 func c13Generate(c *mon.Ctx) {
+	concBatches(c, c.N(6, 300), func(seed uint64) any { return &c13Case{Conc: seed} })
+
 	n := oracle.N
 	st := gen.Structured(n)
 	hx := func(v *big.Int) string { return fmt.Sprintf("%x", v) }
@@ -167,6 +171,11 @@ func c13Generate(c *mon.Ctx) {
 
 func c13Run(c *mon.Ctx, csAny any) {
 	cs := csAny.(*c13Case)
+
+	if cs.Conc != 0 {
+		c13RunConc(c, cs.Conc)
+		return
+	}
 	c.Count("class:" + cs.Class)
 
 	mk := func(h string) (*secp256k1.Scalar, *big.Int) {
